@@ -115,14 +115,8 @@ func C17(c *Ctx) {
 		// the walk is in rank order: a range loop over the ranking (index φ stepping +1 from -1)
 		inOrder := false
 		flow.Instrs(f, func(in ssa.Instruction) {
-			if ia, ok := in.(*ssa.IndexAddr); ok && ia.X == ranked {
-				if bo, ok := ia.Index.(*ssa.BinOp); ok && bo.Op == token.ADD {
-					if k, ok := constInt(bo.Y); ok && k == 1 {
-						if _, isPhi := bo.X.(*ssa.Phi); isPhi {
-							inOrder = true
-						}
-					}
-				}
+			if ia, ok := in.(*ssa.IndexAddr); ok && ia.X == ranked && countsUpFromZero(ia.Index) {
+				inOrder = true
 			}
 		})
 		r.Check("C17.U3.healthyWalk", load.ShortFunc(f), "ranking walked from the top", c.P.Pos(f.Pos()), inOrder, "the ranking is not walked in order from its first element")
@@ -181,10 +175,6 @@ func C17(c *Ctx) {
 			n++
 			gated := false
 			for _, ft := range flow.FactsAtInstr(call) {
-				bo, isB := ft.Cond.(*ssa.BinOp)
-				if !isB || bo.Op != token.EQL || !ft.Pol {
-					continue
-				}
 				isOwner := func(v ssa.Value) bool {
 					cc, ok := v.(*ssa.Call)
 					if !ok {
@@ -194,7 +184,8 @@ func C17(c *Ctx) {
 					return h != nil && (h.Name() == "getHealthyOwner" || h.Name() == "GetOwner")
 				}
 				isLocal := func(v ssa.Value) bool { return strings.HasSuffix(flow.FieldOwner(v), "PeerPool.nodeID") }
-				if (isOwner(bo.X) && isLocal(bo.Y)) || (isOwner(bo.Y) && isLocal(bo.X)) {
+				// owner == p.nodeID established, in either spelling (`==` taken, `!=` not taken) and operand order
+				if flow.Holds(ft, token.EQL, isOwner, isLocal) {
 					gated = true
 				}
 			}
@@ -356,4 +347,46 @@ func canonicalStore(f *ssa.Function, st *ssa.Store) (bool, string) {
 		return true, ""
 	}
 	return false, "peerNodes is assigned an append that does not extend or splice the current list"
+}
+
+// countsUpFromZero: idx is the index of a loop that visits 0, 1, 2, …: the range form (φ[-1, idx] + 1) or the
+// three-clause form (φ[0, φ+1]).
+func countsUpFromZero(idx ssa.Value) bool {
+	plusOne := func(v ssa.Value, of ssa.Value) bool {
+		bo, ok := v.(*ssa.BinOp)
+		if !ok || bo.Op != token.ADD || bo.X != of {
+			return false
+		}
+		k, isK := constInt(bo.Y)
+		return isK && k == 1
+	}
+	if bo, ok := idx.(*ssa.BinOp); ok && bo.Op == token.ADD {
+		if k, isK := constInt(bo.Y); isK && k == 1 {
+			if phi, isPhi := bo.X.(*ssa.Phi); isPhi {
+				for _, e := range phi.Edges {
+					if e == idx {
+						continue
+					}
+					if c, isC := constInt(e); !isC || c != -1 {
+						return false
+					}
+				}
+				return true
+			}
+		}
+	}
+	if phi, ok := idx.(*ssa.Phi); ok {
+		sawZero := false
+		for _, e := range phi.Edges {
+			if c, isC := constInt(e); isC && c == 0 {
+				sawZero = true
+				continue
+			}
+			if !plusOne(e, phi) {
+				return false
+			}
+		}
+		return sawZero
+	}
+	return false
 }
